@@ -29,8 +29,10 @@ def run(ctx: Ctx):
     dc.model_check(ctx, "DEVS segmentations (4 commands)", dc.consts(MaxId=4, Cmds=SEG, Bounds=[1, 2, 3], MaxCmds=4, **small), need_actions=need)
     if not q:
         dc.model_check(ctx, "DEVS segmentations (5 commands)", dc.consts(MaxId=4, Cmds=SEG, Bounds=[1, 3], MaxCmds=5, **small))
-        dc.model_check(ctx, "DEVS segmentations (4 commands, 2 prios, 5 events)",
-                       dc.consts(MaxId=5, Cmds=SEG, Bounds=[2, 3], MaxCmds=4, Prios=[1, 5], RelDelays=[0, 1], AbsTimes=[], BadKinds=[], MaxOps=1, MaxInits=1, EndT=3, WarmT=2))
+        # (3 commands: about 12 million states; with 4 commands it is 48 million and, on a loaded machine, more than half an hour)
+        dc.model_check(ctx, "DEVS segmentations (3 commands, 2 prios, 5 events)",
+                       dc.consts(MaxId=5, Cmds=SEG, Bounds=[2, 3], MaxCmds=3, Prios=[1, 5], RelDelays=[0, 1], AbsTimes=[], BadKinds=[], MaxOps=1, MaxInits=1, EndT=3, WarmT=2),
+                       timeout=5400)
     sim_cfgs = [
         dc.consts(MaxId=8, MaxOps=2, Prios=[1, 5], RelDelays=[0, 1, 2], AbsTimes=[], BadKinds=["hstart", "hrun"], HStopOps=True, Cmds=SEG, Bounds=[0, 1, 2, 3, 4], MaxCmds=7, EndT=4, WarmT=2),
         dc.consts(MaxId=7, MaxOps=1, Prios=[5, 10], RelDelays=[0, 1], AbsTimes=[3, 5], BadKinds=[], Cmds=SEG, Bounds=[1, 2, 3, 5], MaxCmds=8, EndT=3, WarmT=0),
